@@ -447,8 +447,8 @@ def main():
             if (vp, key) in seen:
                 continue
             seen.add((vp, key))
-            log('  violation key=%s: %s' % (key, text))
-            log('VIOLATION property=%s replay=%s' % (vp, path))
+            log('  violation key=%s: %s%s' % (key, text, '' if vp == prop else '  [oracle of %s, which shares this harness; the execution was produced by the check of %s]' % (vp, prop)))
+            log('VIOLATION property=%s replay=%s' % (prop, path))
         shutil.rmtree(workdir, ignore_errors=True)
         sys.exit(1)
     log('[%s] held on what was observed: %d executions (%d distinct non-trivial), %d operations, %d overlapping pairs; %d variants; inconclusive checker calls: %d; wall %.1fs'
